@@ -89,6 +89,9 @@ CORPUS = [
     # 64 KiB and 256 KiB transfers with large buffers, both directions at once
     mkcase("corpus-64k", mkdir(23, [B(65536), B(1), B(65535)], [65536]), mkdir(24, [B(70000)], [32768, 100], [CLOSE]), 1),
     mkcase("corpus-256k", mkdir(25, [B(262144)], [65536], [CLOSE]), mkdir(26, [B(131072), B(0), B(131072)], [65536, 4096]), 0),
+    # single writes above 256 KiB (one websocket message each): nothing may cap a message
+    mkcase("corpus-300k", mkdir(29, [B(300000)], [65536], [CLOSE]), mkdir(30, [B(262145), B(1)], [65536, 4096]), 0),
+    mkcase("corpus-1m", mkdir(31, [B(1048576)], [65536], [CLOSE]), mkdir(32, [B(5)], [16]), 1),
     # pings are invisible
     mkcase("corpus-ping", mkdir(27, [B(3)], [2], [CLOSE]), mkdir(28, [PING, B(3), PING, B(0), PING, B(2)], [2]), 0),
 ]
@@ -475,15 +478,16 @@ def chunks(rng, total, maxn=6):
 def gen_conn(rng, big=False):
     mode = rng.choice(["full", "full", "half"])
     closer = rng.choice(["client", "upstream"])
-    sizes = [0, 1, 10, 100, 4096, 5000, 20000] if not big else [65536, 100000, 262144]
+    sizes = [0, 1, 10, 100, 4096, 5000, 20000] if not big else [65536, 100000, 262144, 262145, 300000, 1048576]
     up, down = rng.choice(sizes), rng.choice(sizes)
+    one_write = big and rng.random() < 0.6        # the whole payload in ONE Write call (one websocket message on a dialer leg)
     if mode == "half":
         if closer == "client":
             down = 0
         else:
             up = 0
     rb = lambda: [rng.choice([7, 100, 512, 4096, 32768, 65536]) for _ in range(rng.randint(1, 3))]
-    c = {"up": chunks(rng, up), "down": chunks(rng, down), "rbuf_up": rb(), "rbuf_down": rb(),
+    c = {"up": [up] if one_write and up else chunks(rng, up), "down": [down] if one_write and down else chunks(rng, down), "rbuf_up": rb(), "rbuf_down": rb(),
          "closer": closer, "mode": mode, "seed": rng.randrange(1, 1 << 20)}
     if mode == "half":
         c["down" if closer == "client" else "up"] = []
@@ -581,6 +585,21 @@ def run(ctx):
     th = threading.Thread(target=tunnel_job)
     th.start()
 
+    # backpressure probe (monitor only), also on its own: a reader that does not read for a while - 1.5 s always, 11 s in
+    # the thorough tier - while the writer has far more to send than the buffers hold; nothing may fail or be lost
+    stall = {}
+    stall_cases = [{"id": "stall-1500", "closer": 0, "dirs": [mkdir(1, [], [16]), mkdir(2, [], [16])], "stall_ms": 1500, "stall_total": 8 << 20}]
+    if not quick:
+        stall_cases.append({"id": "stall-11000", "closer": 0, "dirs": [mkdir(1, [], [16]), mkdir(2, [], [16])], "stall_ms": 11000, "stall_total": 16 << 20})
+
+    def stall_job():
+        try:
+            stall["outs"] = run_ws(ws_bin, ctx["wd"], stall_cases, tag="ws_stall", par=2)
+        except Exception as e:
+            stall["error"] = repr(e)
+    th2 = threading.Thread(target=stall_job)
+    th2.start()
+
     t1 = time.time()
     ncorp = len(CORPUS)
     outs = run_ws(ws_bin, ctx["wd"], cases[:ncorp], tag="ws_corpus")
@@ -604,6 +623,23 @@ def run(ctx):
     t1 = time.time()
     th.join()
     log("[C07] tunnel scenarios joined after a further %.1fs (own time %.1fs)" % (time.time() - t1, tun.get("secs", 0)))
+
+    th2.join()
+    if stall.get("error"):
+        raise RuntimeError("ws stall probe failed to run: " + stall["error"])
+    for c, o in zip(stall_cases, stall["outs"]):
+        st = o.get("stall") or {}
+        why = None
+        if o.get("panic"):
+            why = "panic: " + o["panic"]
+        elif st.get("write_err"):
+            why = "Write failed with %r after %d of %d bytes" % (st["write_err"], st.get("written", 0), c["stall_total"])
+        elif st.get("read") != c["stall_total"] or not st.get("intact"):
+            why = "%d of %d bytes arrived (%s), read ended with %r" % (st.get("read", 0), c["stall_total"], "intact" if st.get("intact") else "corrupted", st.get("read_err"))
+        if why:
+            violations.append({"what": "C07 ws backpressure probe: the reader paused for %d ms while %d bytes were being written: %s" % (c["stall_ms"], c["stall_total"], why),
+                               "found_input": True, "replay_obj": {"property": ID, "kind": "ws-stall", "signature": "stall", "why": why, "case": c, "observed": st}})
+            break
 
     seen = set()
     for c, o, f in mon_fail:
@@ -732,6 +768,9 @@ def replay(path, wd):
     case = obj["case"]
     binary = build_harness("pkg/websocket")
     out = run_ws(binary, wd, [case], tag="replay")[0]
+    if obj.get("kind") == "ws-stall":
+        print(json.dumps({"stall": out.get("stall"), "panic": out.get("panic")}, indent=1))
+        return 0
     print(json.dumps({"implementation": trim_obs(out), "monitor": monitor_case(case, out)}, indent=1))
     dis, _ = correspondence(wd, [case], [out], tag="replay")
     print("model disagreements:", dis)
